@@ -156,3 +156,48 @@ Definition check_remove (co : rcase * robs) : bool :=
   && Nat.eqb (List.length (ix_nodes ix)) (List.length onodes)
   && forallb (node_matches (ix_nodes ix)) onodes
   && (match onodes with [] => true | _ => entry_matches ix (Z.eqb (fst entry) id) oentry end).
+
+(* ---- remove with reconnect_on_delete = true ----
+   The theorems about remove hold for ANY re-link function, so what the correspondence has to
+   establish is that the implementation's removal IS the model's removal for some re-link:
+   the re-selected lists are read off the observation (one call per (neighbour, layer)), and
+   everything else - which nodes are rewritten, swap_remove, untouched layers, ids, entry
+   point - must coincide.  In addition every re-selected list may only draw from the list it
+   replaces and the removed node's own neighbours at that layer (the code's candidate set). *)
+Definition obs_relink (onodes : list jnode) (nid : Z) (layer : nat) (_ : list Z) : list Z :=
+  match find (fun j : jnode => Z.eqb (fst (fst j)) nid) onodes with
+  | Some (_, _, nb) => nth layer nb []
+  | None => []
+  end.
+
+Definition run_remove_relink (c : rcase) (onodes : list jnode) : index * bool :=
+  let '(ns, ids, entry, id) := c in
+  remove (obs_relink onodes)
+         (mkIndex (map mk_node ns) ids (fst entry, Z.to_nat (snd entry)) [] []) id.
+
+Definition subset_of (l cand : list Z) : bool := forallb (fun x => zmem x cand) l.
+
+Definition relink_candidates_ok (ns : list jnode) (id : Z) (onodes : list jnode) : bool :=
+  let removed_nbrs := match find (fun j : jnode => Z.eqb (fst (fst j)) id) ns with
+                      | Some (_, _, nb) => nb | None => [] end in
+  forallb (fun o : jnode =>
+    let '(nid, _, onb) := o in
+    match find (fun j : jnode => Z.eqb (fst (fst j)) nid) ns with
+    | Some (_, _, nb) =>
+      forallb (fun lo : nat * list Z =>
+                 subset_of (snd lo) (nth (fst lo) nb [] ++ nth (fst lo) removed_nbrs []))
+              (combine (seq 0 (List.length onb)) onb)
+    | None => false
+    end) onodes.
+
+Definition check_remove_relink (co : rcase * robs) : bool :=
+  let '(c, o) := co in
+  let '(ns, ids, entry, id) := c in
+  let '(ret, oids, oentry, onodes) := o in
+  let '(ix, b) := run_remove_relink c onodes in
+  Bool.eqb b ret
+  && list_eqb Z.eqb (ix_ids ix) oids
+  && Nat.eqb (List.length (ix_nodes ix)) (List.length onodes)
+  && forallb (node_matches (ix_nodes ix)) onodes
+  && relink_candidates_ok ns id onodes
+  && (match onodes with [] => true | _ => entry_matches ix (Z.eqb (fst entry) id) oentry end).
